@@ -445,7 +445,7 @@ DRIVE = {
     "bpkiCSRRewrap": D({"csr_len": 382, "privkey_len": 32}, 1),
     # ---- btok CVC
     "btokCVCWrap": D({"privkey_len": 64}, 1),
-    "btokCVCUnwrap": D({"cert_len": 322, "pubkey_len": 128}, 0, auth=["ERR_ANY"], tamper=["sig", "body", "key"]),
+    "btokCVCUnwrap": D({"cert_len": 322, "pubkey_len": 128}, 0, auth=["ERR_ANY"], tamper=["sig", "body", "key", "selfsig", "selfbody"]),
     "btokCVCIss": D({"certa_len": 356, "privkeya_len": 64}, 1),
     "btokCVCVal": D({"cert_len": 322, "certa_len": 356}, 0, auth=["ERR_ANY"], tamper=["sig", "body", "date"]),
     "btokCVCVal2": D({"cert_len": 322}, 0, auth=["ERR_ANY"], tamper=["sig", "body", "date"]),
